@@ -73,7 +73,7 @@ def run(ctx):
     classes = ['bytes', 'u8', 'i16', 'i32', 'float']
     ntests = 0
     # row names: R1, R2 are byte strings; N0, N1, N2 the integers 0, 1, 2 and F2 the number 2.5 (a first column of numbers)
-    NAMES = {'R1': b'R1  ', 'R2': b'R2  ', 'N0': 0, 'N1': 1, 'N2': 2, 'F2': 2.5}
+    NAMES0 = {'R1': b'R1  ', 'R2': b'R2  ', 'N0': 0, 'N1': 1, 'N2': 2, 'F2': 2.5}
     byt, num = ['R1', 'R2'], ['N0', 'N1', 'N2', 'F2']
     configs = [('FALSE', 1, '2', byt), ('TRUE', 1, '3', byt), ('FALSE', 2, '2', byt), ('FALSE', 1, '2', num[:2] + num[3:]), ('TRUE', 1, '2', num[:2] + num[3:])] if ctx.quick else \
               [('FALSE', 1, '3', byt), ('TRUE', 1, '3', byt), ('FALSE', 2, '2', byt), ('TRUE', 2, '2', byt), ('FALSE', 1, '3', num + ['R1']),
@@ -100,6 +100,10 @@ def run(ctx):
             tname = rng.choice([b'FILM', b'PRES', b'CONS', b'TOOL'])
             lrtype = rng.choice([32, 34, 39])
             # concrete rows: cell 0 = row name (bytes), other cells by class
+            # the model's names R1, R2 stand for any two distinct byte strings: four characters, shorter, longer ones that share
+            # their first four characters
+            fam = rng.choice([(b'R1  ', b'R2  '), (b'R1  ', b'R2  '), (b'ZONE_1', b'ZONE_2'), (b'A', b'B'), (b'LONGNAME0001', b'LONGNAME0002'), (b'1   ', b'2   '), (b'GR10', b'GR1 ')])
+            NAMES = dict(NAMES0, R1=fam[0], R2=fam[1])
             conc = []
             for rw in rows:
                 cells = []
@@ -120,7 +124,7 @@ def run(ctx):
                     lr = bytes([lrtype, 0]) + cb_bytes(73, 65, 4, b'TYPE', b'    ', tname)
                     for n, cs in conc:
                         if isinstance(n, bytes):
-                            lr += cb_bytes(0, 65, 4, COLS[0], b'    ', n)
+                            lr += cb_bytes(0, 65, len(n), COLS[0], b'    ', n)
                         elif isinstance(n, float):
                             lr += cb_bytes(0, 68, 4, COLS[0], b'    ', RepCode.writeBytes68(n))
                         else:
